@@ -45,6 +45,11 @@ struct Program {
     /// true: the thread creates its instance AFTER pinning (the instance holds its region slot —
     /// the fast path); false: BEFORE pinning (the region is looked up on every access)
     fast: bool,
+    /// true (mode letter `p`, implies `fast`): the ROOT thread is already pinned to processor 0
+    /// when it creates the value, so the first instance of the family is itself a fast-path
+    /// instance of region 0 (whatever that instance resolved must not leak into instances that
+    /// other threads create in other regions)
+    root_pinned: bool,
     /// (processor the thread is pinned to, operations)
     threads: Vec<(usize, Vec<Op>)>,
 }
@@ -55,7 +60,7 @@ impl Program {
             "{}:{}:{}:{}",
             if self.kind == Kind::Cached { "rc" } else { "rl" },
             self.regions.iter().map(|n| n.to_string()).collect::<Vec<_>>().join("+"),
-            if self.fast { "f" } else { "l" },
+            if self.root_pinned { "p" } else if self.fast { "f" } else { "l" },
             self.threads
                 .iter()
                 .map(|(p, ops)| format!("{}@{}", ops.iter().map(|o| if *o == Op::Set { 'S' } else { 'G' }).collect::<String>(), p))
@@ -68,7 +73,8 @@ impl Program {
         Program {
             kind: if parts[0] == "rc" { Kind::Cached } else { Kind::Local },
             regions: parts[1].split('+').map(|x| x.parse().unwrap()).collect(),
-            fast: parts[2] == "f",
+            fast: parts[2] != "l",
+            root_pinned: parts[2] == "p",
             threads: parts[3]
                 .split(',')
                 .map(|t| {
@@ -246,6 +252,10 @@ fn execution(prog: &Program) -> String {
     ME.set((0, usize::MAX));
     let hw = prog.hardware();
     let _ = hw.all_processors(); // fill the hardware's processor cache before any thread runs
+    if prog.root_pinned {
+        pin_to(&hw, 0);
+        ME.set((0, 0));
+    }
     // The root thread is not pinned while it creates the value (its own instance therefore looks
     // the region up on every access; the root only uses it after pinning itself, at quiescence).
     let (root_inst, fam) = match prog.kind {
@@ -279,10 +289,14 @@ fn execution(prog: &Program) -> String {
         log(Ev::GetStart { t: 0 });
         let val = fresh.get();
         log(Ev::GetEnd { t: 0, val, region: r });
-        // ... and the root's own instance (region looked up per access)
-        log(Ev::GetStart { t: 0 });
-        let val = root_inst.get();
-        log(Ev::GetEnd { t: 0, val, region: r });
+        // ... and the root's own instance (region looked up per access; when the root created it
+        // while pinned it belongs to region 0 and is only read there - re-pinning a thread under
+        // a fast-path instance is outside the property)
+        if !prog.root_pinned || r == 0 {
+            log(Ev::GetStart { t: 0 });
+            let val = root_inst.get();
+            log(Ev::GetEnd { t: 0, val, region: r });
+        }
     }
     let events = LOG.lock().unwrap_or_else(|p| p.into_inner()).clone();
     match judge(prog, &events) {
@@ -619,6 +633,9 @@ fn programs(thorough: bool) -> Vec<(Program, usize)> {
         add(&mut v, &format!("{k}:1+1+1:f:S@0,G@2"), b1);
         // two processors in one region
         add(&mut v, &format!("{k}:2:f:S@0,G@1"), b1);
+        // the family is created by a thread that is already pinned (to region 0); the threads
+        // create their instances in region 0 and in region 1
+        add(&mut v, &format!("{k}:1+1:p:SG@0,SG@1"), b1);
     }
     if thorough {
         // Budget: ~150 executions/s in total in this sandbox, so ~150k executions for ~17 minutes.
@@ -631,6 +648,10 @@ fn programs(thorough: bool) -> Vec<(Program, usize)> {
             // shape): deviation... these stay at bound 2
             add(&mut v, &format!("{k}:1:f:S@0,G@0,G@0"), 2);
             add(&mut v, &format!("{k}:1:f:SS@0,G@0,GG@0"), 2);
+            // pinned creator, other placements
+            add(&mut v, &format!("{k}:1+1:p:SG@1,G@0"), 2);
+            add(&mut v, &format!("{k}:1+1+1:p:SG@1,SG@2"), 1);
+            add(&mut v, &format!("{k}:2+1:p:SG@1,SG@2"), 1);
         }
         // ---- systematic family: every unordered pair of op sequences of 1..=2 operations, on
         //      one region and on two regions, every schedule with <= 1 preemption ----
@@ -845,7 +866,7 @@ fn main() {
         }
     }
     c.rule = format!(
-        "programs = {{region_cached, region_local}} x fake hardware (1-3 memory regions, 1-2 processors each) x 2 threads (thorough tier: 2-3), each pinned to one fake processor, instance created after pinning (fast path) or before (per-access region lookup), each 1-3 operations from {{set(writer,seq), get}}, incl. writers racing the first access of another region; for each program EVERY schedule with at most {bound} preemptions (core programs) / {min_bound} (systematic two-thread family, wide placements and the remaining three-thread programs; thorough tier only) over the hook points (before every ArcSwap load/store/CAS, the generation fetch_add, the per-region clear, OnceLock init, event set; modelled event wait); after joining, the root reads every region twice; states = schedules executed, transitions = scheduling steps; a program is distinct by its name"
+        "programs = {{region_cached, region_local}} x fake hardware (1-3 memory regions, 1-2 processors each) x 2 threads (thorough tier: 2-3), each pinned to one fake processor, instance created after pinning (fast path) or before (per-access region lookup), the family created by an unpinned root or (mode p) by a root already pinned to region 0, each 1-3 operations from {{set(writer,seq), get}}, incl. writers racing the first access of another region; for each program EVERY schedule with at most {bound} preemptions (core programs) / {min_bound} (systematic two-thread family, wide placements and the remaining three-thread programs; thorough tier only) over the hook points (before every ArcSwap load/store/CAS, the generation fetch_add, the per-region clear, OnceLock init, event set; modelled event wait); after joining, the root reads every region twice; states = schedules executed, transitions = scheduling steps; a program is distinct by its name"
     );
     c.extra.insert("programs".into(), json!(progs.len()));
     c.extra.insert("preemption_bound".into(), json!(bound));
